@@ -418,6 +418,7 @@ static _Bool parsed_ok(%(VS)s *old, %(VS)s *now)
 
 
 META = dict(
+    technique='mixed: CBMC function/loop contracts (removeArgs, prefix helpers: unbounded), z3 real-arithmetic VCs (number formatting), CBMC bounded unwinding against specification functions written from the property (FileName, tokenize, split, PseudoURL, ArgumentList)',
     level="other",
     level_text="PARTIAL coverage of the statement; items (4), (5), (6) and (7) are BOUNDED exact checks. (4) FileName: the string constructor, path, base, ext, name, dropExt, setExt, addExt, operator+ (FileName and std::string right operands) and == are extracted and checked with CBMC (bounded unwinding) against specification functions written from the property (include/c18_filename_spec.h: dot and separator of the LAST component, normalisation of separators) for every name of at most 6 characters and every extension / right operand of at most 3 (8 / 4 thorough), arbitrary bytes. (5) tokenize, split(delimiter set, keepDelim), split(single character; std::getline on a bounded string-stream model: its non-empty tokens) and lowerCase/upperCase (ASCII letters) are checked the same way against 'exactly the maximal runs of non-delimiter characters, in order, one-character tokens included' for every string of at most 5 characters (7 thorough) and every delimiter (set of at most 2). (6) PseudoURL: the constructor is checked the same way against a specification function written from the documented format <type>://<file>[:name=value]* (first '://' ends the type, ':'-separated non-empty components, first '=' splits name from value) for every input of at most 7 characters (9 thorough); getType/getFileName return the parsed parts, getValue returns the value of the LAST parameter with the name and throws std::runtime_error exactly when there is none, hasParam is existence (parsed states with at most 3 parameters of at most 2+2 characters). (7) ArgumentList: the (argc, argv) constructor stores argv[1..] in order, operator[] returns a copy of argument i or throws std::out_of_range, size/empty, remove(where, howMany) keeps exactly the other arguments in order, and ArgumentsParser::parseAndRemove -- against an interface stub of the pure virtual tryConsume that consumes by the argument's first character -- keeps exactly the unconsumed arguments of the original list in order (lists of at most 4 arguments of at most 2 characters). (1) removeArgs is extracted from /repo and proved by CBMC (function contract + loop contract, any argc): the count drops by howMany, arguments before `where` are untouched and every later argument moves down by howMany in order (ghost positions). (2) prettyDouble and prettyNumber are extracted and decided by the math back end (z3 over the reals, float literals at their exact binary32 values, snprintf as a recording interface model): for every magnitude in [1e-15, 1e21) (prettyNumber: every size_t) the mantissa handed to the formatter lies in [0.95, 1000.05) -- i.e. prints as 1.0 .. 1000.0 -- and mantissa x 10^(suffix) equals the input within 1e-6 relative; plain numbers are printed unscaled. (3) longestBeginningMatch and beginsWith are extracted and proved by CBMC on a value-tracking std::string model for strings of ANY length up to 2^40: the result of longestBeginningMatch is a common prefix (ghost position), is the longest one, and beginsWith is true only for prefixes and true for every prefix; the same two functions are also checked EXACTLY (full prefix relation, exact common-prefix length) for strings of at most 4 characters with bounded unwinding, which yields natively replayable counterexamples.",
     level_note="NOT covered (unverified): FileName::operator-/canonical/homeFolder. The FileName and tokenize/split checks are BOUNDED (string lengths above; std::string and std::vector are bounded CODE models with inline storage, loops unwound with unwinding assertions) -- not proofs for longer strings. Floating point is treated as real arithmetic in (2) (rounding of the division and of %.1f is not modelled). std::string is a value-tracking MODEL; std::mismatch/std::equal/std::min are reference models; the string range constructor is an assumed contract instantiated at ghost positions. removeArgs is proved under its natural precondition 0 <= where, 0 <= howMany, where + howMany <= ac.",
